@@ -23,7 +23,11 @@ type C16Scn struct {
 	Style  Style    `json:"style"`
 	Ops    []LOp    `json:"ops"`
 	WidthA int      `json:"width_a"` // fileLineLength of the text layouts in configuration A
+	RelDir int      `json:"rel_dir,omitempty"` // 1, 2: the file appenders' fileDir is relative ("./logs", "logs"; the attribute's default is relative too)
 }
+
+// c16LogDir is the fileDir the configurations are rendered with (set per case by Run).
+var c16LogDir = "/logs"
 
 func (s *C16Scn) knobs() SimKnobs { return s.Knobs }
 
@@ -34,7 +38,7 @@ func init() { register(c16{}) }
 func (c16) ID() string    { return "C16" }
 func (c16) Level() string { return "exploration" }
 func (c16) Rule() string {
-	return "case = operation history of length <= 8 (thorough <= 12) over {Refresh(valid A), Refresh(valid B), Refresh(invalid, failing before or after start-up: no appenders, unknown type, start failure on the simulated disk, bufferSize < 100, bad property value, unconfigured requested handle), Destroy, log through a tag at some level, raw write through a named handle, register a tag, obtain a handle}; A and B contain sync, async, file and console pieces and different tag lists. After every operation the simulated system runs to quiescence and the operation's effect is compared with a lifecycle state machine: no panic except the documented refusal of registration while a configuration is live, no blocked call, output exactly where the model says (the configured recording appender / file, or the built-in console whenever no configuration is live), second Refresh rejected without changing routing, Destroy idempotent, no descriptor left open by Destroy. Outcomes the statement leaves open (registration and a further Refresh between a failed Refresh and the next Destroy) are not judged. Non-trivial = at least three of the four lifecycle states (never configured, live, failed, destroyed) were visited with a log or write in each; distinct = distinct operation histories x rendering style x context-switch trace."
+	return "case = operation history of length <= 8 (thorough <= 12) over {Refresh(valid A), Refresh(valid B), Refresh(invalid, failing before or after start-up: no appenders, unknown type, start failure on the simulated disk, bufferSize < 100, bad property value, unconfigured requested handle), Destroy, log through a tag at some level, raw write through a named handle, register a tag, obtain a handle}; A and B contain sync, async, file and console pieces and different tag lists. The file appenders' fileDir is /logs, ./logs or logs (working directory of the simulated process: /). After every operation the simulated system runs to quiescence and the operation's effect is compared with a lifecycle state machine: no panic except the documented refusal of registration while a configuration is live, no blocked call, output exactly where the model says (the configured recording appender / file, or the built-in console whenever no configuration is live), second Refresh rejected without changing routing, Destroy idempotent, no descriptor left open by Destroy. Outcomes the statement leaves open (registration and a further Refresh between a failed Refresh and the next Destroy) are not judged. Non-trivial = at least three of the four lifecycle states (never configured, live, failed, destroyed) were visited with a log or write in each; distinct = distinct operation histories x rendering style x context-switch trace."
 }
 func (c16) Decode(raw json.RawMessage) (any, error) {
 	var s C16Scn
@@ -48,6 +52,7 @@ var c16Handles = []string{"svc", "aud", "root", "nosuch"}
 func (c16) Gen(rt *rapid.T, thorough bool) any {
 	s := &C16Scn{Knobs: genKnobs(rt), Style: genStyle(rt)}
 	s.WidthA = rapid.SampledFrom([]int{0, 0, 1, 2, 3, 7, 60}).Draw(rt, "width_a")
+	s.RelDir = rapid.SampledFrom([]int{0, 0, 0, 1, 2}).Draw(rt, "rel_dir")
 	maxLen := 8
 	if thorough {
 		maxLen = 12
@@ -87,7 +92,7 @@ func c16Config(which string, st Style, widthA int) *SysSpec {
 	switch which {
 	case "A":
 		// the file appender carries the same name as the logger that uses it (separate name spaces); rS is referenced by nobody; it logs through a tag from inside its Start, i.e. while Refresh is under way
-		sp.Apps = []AppSpec{{Name: "rA0", Type: "Rec"}, {Name: "rA1", Type: "Rec"}, {Name: "svc", Type: "File", FileDir: "/logs", FileName: "a.log", Width: widthA}, {Name: "cA", Type: "Console", Width: widthA}, {Name: "rS", Type: "Rec", StartLog: true}}
+		sp.Apps = []AppSpec{{Name: "rA0", Type: "Rec"}, {Name: "rA1", Type: "Rec"}, {Name: "svc", Type: "File", FileDir: c16LogDir, FileName: "a.log", Width: widthA}, {Name: "cA", Type: "Console", Width: widthA}, {Name: "rS", Type: "Rec", StartLog: true}}
 		sp.Logs = []LogSpec{
 			{Name: "root", Type: "Logger", Refs: []RefSpec{{Ref: "rA0"}, {Ref: "cA", Level: "FATAL"}}},
 			{Name: "svc", Type: "AsyncLogger", Tags: []string{"svc_*", "_app_*"}, BufferSize: 100, Policy: "Block", Refs: []RefSpec{{Ref: "rA1"}, {Ref: "svc", Level: "WARN"}}},
@@ -119,11 +124,11 @@ func c16Bad(kind string, st Style) map[string]string {
 		sp.Apps = append(sp.Apps, AppSpec{Name: "fbad", Type: "File", FileDir: "/no/such/dir", FileName: "x.log"})
 		sp.Logs[0].Refs = append(sp.Logs[0].Refs, RefSpec{Ref: "fbad", Level: "FATAL"})
 	case "small-buffer":
-		sp.Apps = append(sp.Apps, AppSpec{Name: "fok", Type: "File", FileDir: "/logs", FileName: "late.log"})
+		sp.Apps = append(sp.Apps, AppSpec{Name: "fok", Type: "File", FileDir: c16LogDir, FileName: "late.log"})
 		sp.Logs[0].Refs = append(sp.Logs[0].Refs, RefSpec{Ref: "fok", Level: "FATAL"})
 		sp.Logs[1].BufferSize = 50
 	case "bad-property":
-		sp.Apps = append(sp.Apps, AppSpec{Name: "fok", Type: "File", FileDir: "/logs", FileName: "late.log"})
+		sp.Apps = append(sp.Apps, AppSpec{Name: "fok", Type: "File", FileDir: c16LogDir, FileName: "late.log"})
 		sp.Logs[0].Refs = append(sp.Logs[0].Refs, RefSpec{Ref: "fok", Level: "FATAL"})
 		sp.Props["bufferCap"] = "lots"
 	}
@@ -196,6 +201,14 @@ func (c16) Run(x *Exec, scn any) {
 	o := x.Out
 	o.ScnDistinct = true
 	x.FS.MkdirAll("/logs")
+	// a relative fileDir names the same directory as long as the process stays where it is: the
+	// working directory of the simulated process is "/", so the model's paths do not change
+	c16LogDir = []string{"/logs", "./logs", "logs"}[s.RelDir]
+	defer func() { c16LogDir = "/logs" }()
+	if s.RelDir > 0 {
+		x.FS.Chdir("/")
+		x.Sim.Probe("relative_file_dir")
+	}
 	installHooks(true, false, false)
 	m := &lcModel{tags: map[string]*log.Tag{}, handles: map[string]*log.LoggerWrapper{}}
 	for _, t := range c16Tags {
